@@ -24,7 +24,7 @@ var largeSizes = []sgen.Size{
 
 func c01Counts(tier string) (bulk, large, pres int) {
 	if tier == "thorough" {
-		return 40000, 40, 8
+		return 100000, 40, 8
 	}
 	return 300, 8, 4
 }
